@@ -71,6 +71,56 @@ Definition obfuscate_json_v (v : leaf_variant) (H : bytes -> bytes) (excl : list
            (j : json) : json :=
   obf_v v H (excluded_fixed excl) [] j.
 
+(* ---- the two call sites as a whole, with the switch (Audit 2, item 22) ----
+   The seeded change C16-9 puts the detector into Obfuscator.ObfuscateString too
+   (`return obfuscator.hashOnce([]byte(raw))`): the fallback for a body that does
+   not parse goes through the same [hash_str].  [obfuscate_body_v LHead] /
+   [plugin_body_v LHead] are Model.obfuscate_body / Model.plugin_body
+   (VariantsProofs.obfuscate_body_v_head, plugin_body_v_head). *)
+Definition obfuscate_body_v (v : leaf_variant) (H : bytes -> bytes)
+           (enabled request : bool) (excl : list bytes) (body : bytes)
+           (parsed : option json) : body_out :=
+  if negb enabled then OutText body else
+  match body with
+  | [] => OutText []
+  | _ => match parsed with
+         | Some j =>
+             OutJson (obfuscate_json_v v H (filter_body_exclusions request excl) j)
+         | None => OutText (hash_str v H body)
+         end
+  end.
+
+Definition plugin_body_v (v : leaf_variant) (H : bytes -> bytes) (enabled : bool)
+           (excl : list bytes) (body : bytes) (parsed : option json) : body_out :=
+  if negb enabled then OutText body else
+  match parsed with
+  | Some j => OutJson (obfuscate_json_v v H excl j)
+  | None => OutText (hash_str v H body)
+  end.
+
+(* Seeded change C16-12: a fast path of apiStreamObfuscator.obfuscateBody in front
+   of ObfuscateJSON: when one of the exclusions selected for the direction is the
+   body prefix itself or the prefix followed by "[]", the body is returned as it
+   is (no parse, no walk) - whatever the body is.  [as_written] = what the
+   harness reads back from a body that left untouched. *)
+Definition whole_body_excluded (request : bool) (excl : list bytes) : bool :=
+  existsb (fun e => match cut_prefix (dir_prefix request) e with
+                    | Some r => beq r [] || beq r [c_lbr; c_rbr]
+                    | None => false
+                    end) (filter_body_exclusions request excl).
+
+Definition as_written (body : bytes) (parsed : option json) : body_out :=
+  match parsed with Some j => OutJson j | None => OutText body end.
+
+Definition obfuscate_body_fast (H : bytes -> bytes) (enabled request : bool)
+           (excl : list bytes) (body : bytes) (parsed : option json) : body_out :=
+  if negb enabled then OutText body else
+  match body with
+  | [] => OutText []
+  | _ => if whole_body_excluded request excl then as_written body parsed
+         else obfuscate_body H enabled request excl body parsed
+  end.
+
 (* the detector of the seeded change C16-9: 32 characters, all in 0-9a-f *)
 Definition is_lower_hex (c : Z) : bool :=
   ((48 <=? c) && (c <=? 57)) || ((97 <=? c) && (c <=? 102)).
@@ -103,3 +153,18 @@ Definition keeps_excluded_for (v : leaf_variant) : Prop :=
     nodup_walked (excluded_fixed excl) [] j = true ->
     descend j ps = Some (q, x) -> on_excluded excl q ->
     descend (obfuscate_json_v v H excl j) ps = Some (q, x).
+
+(* ---- the body statement of Part C for a call-site function (Audit 2) ---- *)
+From Verif Require Import C16.Export C16.ExportSpec.
+
+(* with obfuscation enabled, whatever the message [s] (wire body, encoding,
+   does it parse), the direction, the exclusions and the hash function: what the
+   call-site function [f] returns for the body that goes into the HAR is hidden
+   ([hidden_body]: empty; the hash of the whole text when it is not JSON; a
+   document all of whose leaves are hidden or excluded) *)
+Definition body_hides
+  (f : (bytes -> bytes) -> bool -> bool -> list bytes -> bytes -> option json -> body_out)
+  : Prop :=
+  forall H request excl s,
+    hidden_body H request excl s
+      (f H true request excl (fst (effective s)) (snd (effective s))).
